@@ -93,6 +93,9 @@ def make_spec(rng, idx=0):
     spec["default_not_first"] = feature()
     # an explicitly declared MID-CHAIN level (with undeclared levels above it): extrapolation skips it and goes on
     spec["declared_mid_level"] = feature()
+    # configuration features the demo leaves (almost) unused: a TYPED search narrowing, path defaults
+    spec["typed_narrowing"] = feature()
+    spec["path_defaults"] = feature()
     # documented usage: intermediate types extrapolated from a LEAF type (its name suffix is not its last key)
     spec["extrapolate_from_leaf"] = feature()
     return spec
@@ -213,7 +216,12 @@ def write_package(spec, directory):
         f.write("key_types = %r\n" % key_types)
         f.write("leaf_keys = %r\n" % leaf_keys)
         f.write("basetyped_search_narrowing = %r\n" % narrowing)
-        f.write("typed_search_narrowing = {}\n")
+        tn = {}
+        if spec.get("typed_narrowing"):
+            bt0 = next((bt for bt in spec["basetypes"] if bt["groups"]), None)
+            if bt0:      # searches of ONE leaf type are narrowed to the first project
+                tn["%s__%s_file" % (bt0["name"], bt0["groups"][0])] = "%s=~%s" % (P, spec["projects"][0])
+        f.write("typed_search_narrowing = %r\n" % tn)
     mapping = {P: {p.upper(): p for p in spec["projects"]},
                T: {bt["folder"]: bt["code"] for bt in spec["basetypes"]},
                S: {v: k for k, v in spec["states"].items()}}
@@ -245,7 +253,8 @@ def write_package(spec, directory):
             f.write("project_root_path = Path(__file__).parent / 'data' / 'testing' / 'SPIL_PROJECTS' / %r / 'PROJECTS'\n" % sub)
             f.write("path_templates = %s\n" % pdict(path_templates))
             f.write("path_templates = {k: v.replace('{@root}', project_root_path.as_posix()) for k, v in path_templates.items()}\n")
-            f.write("path_defaults = {}\nsidkeys_to_extrakeys = {}\nextrakeys_to_sidkeys = {}\nsearch_path_mapping = {}\n")
+            pdef = {S: list(mapping[S].keys())[0]} if spec.get("path_defaults") else {}
+            f.write("path_defaults = %r\nsidkeys_to_extrakeys = {}\nextrakeys_to_sidkeys = {}\nsearch_path_mapping = {}\n" % pdef)
             f.write("path_mapping = %r\n" % mapping)
             f.write("key_patterns = copy.deepcopy(_kp)\n")
             f.write("for _sel, _d in %r.items():\n    key_patterns.setdefault(_sel, {}).update(_d)\n" % fs_kp)
